@@ -323,6 +323,14 @@ type pathState struct {
 	asserts []string // labels checked on this path in order
 	nForks  int
 	dead    bool
+
+	// local exploration of a summarised function (see summarize): branch
+	// conditions are collected in localCond instead of being asserted, and
+	// alternatives go to altSink instead of the harness work list
+	local     bool
+	localCond *term.T
+	altSink   *[][]int
+	ctx       *term.Ctx
 }
 
 func (i *interp) decide(cond *term.T, what string) bool {
@@ -346,14 +354,22 @@ func (i *interp) decide(cond *term.T, what string) bool {
 		return false
 	}
 	p.h.noteDecision()
-	r1 := p.sess.check(cond)
-	var r2 solver.Result
+	var r1, r2 solver.Result
+	if p.local && !p.localCond.IsTrue() {
+		r1 = p.sess.check(c.AndB(p.localCond, cond))
+	} else {
+		r1 = p.sess.check(cond)
+	}
 	if r1 == solver.Unsat {
 		p.trace = append(p.trace, 0)
 		p.addPC(c.NotB(cond))
 		return false
 	}
-	r2 = p.sess.check(c.NotB(cond))
+	if p.local && !p.localCond.IsTrue() {
+		r2 = p.sess.check(c.AndB(p.localCond, c.NotB(cond)))
+	} else {
+		r2 = p.sess.check(c.NotB(cond))
+	}
 	if r2 == solver.Unsat {
 		p.trace = append(p.trace, 1)
 		p.addPC(cond)
@@ -364,13 +380,21 @@ func (i *interp) decide(cond *term.T, what string) bool {
 	}
 	// both sides (possibly) feasible: fork
 	alt := append(append([]int(nil), p.trace...), 0)
-	p.h.push(alt)
+	if p.local {
+		*p.altSink = append(*p.altSink, alt)
+	} else {
+		p.h.push(alt)
+	}
 	p.trace = append(p.trace, 1)
 	p.addPC(cond)
 	return true
 }
 
 func (p *pathState) addPC(t *term.T) {
+	if p.local {
+		p.localCond = p.ctx.AndB(p.localCond, t)
+		return
+	}
 	p.pc = append(p.pc, t)
 	p.sess.assert(t)
 }
@@ -378,6 +402,9 @@ func (p *pathState) addPC(t *term.T) {
 // choose is a structural n-way fork that needs no solver.
 func (i *interp) choose(n int) int {
 	p := i.path
+	if p.local {
+		unsupported("verifChoose inside a summarised function")
+	}
 	pos := len(p.trace)
 	if pos < len(p.prefix) {
 		d := p.prefix[pos]
